@@ -1003,6 +1003,9 @@ async fn build_authoritative_response(
         });
 
         if is_referral {
+            // The server is not an authority for names at or below a zone cut
+            // (RFC 1035 section 4.1.1, RFC 1034 section 6.2.6).
+            message.metadata.authoritative = false;
             message.authorities.extend(lookup_records.iter().cloned());
         } else {
             message.answers.extend(lookup_records.iter().cloned());
